@@ -59,6 +59,12 @@ fn dispatch(req: &Value) -> Value {
 }
 
 fn main() {
+    let args: Vec<String> = std::env::args().collect();
+    if args.len() >= 5 && args[1] == "--lock-restart-phase" {
+        // child process of the `lock_handle_restart` op: one phase, one JSON line
+        println!("{}", ops_locks::restart_phase(&args[2], &args[3], args[4].parse().unwrap_or(1)));
+        return;
+    }
     std::panic::set_hook(Box::new(|_| {}));
     let stdin = std::io::stdin();
     let stdout = std::io::stdout();
